@@ -443,6 +443,10 @@ STMTS = {
     "self._empty_mask[pos] = False": "(LSMask LIPos false)",
     "self._empty_mask[agent.pos] = True": "(LSMask LIAgentPos true)",
     "self._empty_mask[agent.pos] = False": "(LSMask LIAgentPos false)",
+    # fixes/C08-5: the mask is indexed with the unpacked coordinates as plain ints (bool / NumPy / int-subclass coordinates);
+    # int(x), int(y) of the unpacked `pos` is the cell `pos` names
+    "self._empty_mask[int(x), int(y)] = True": "(LSMask LIPos true)",
+    "self._empty_mask[int(x), int(y)] = False": "(LSMask LIPos false)",
     "agent.pos = pos": "LSPosSet",
     "agent.pos = None": "LSPosClear",
     "self.remove_agent(agent)": "LSCallRemove",
